@@ -268,6 +268,56 @@ pub fn run_purity(schema: &s::Document, docs: &[q::Document], codes: &[String]) 
         }
     }
     out.push(format!("HISTORY {}", if history_ok { "ok" } else { "BAD" }));
+    // other SCHEMAS in the history: variants of the schema with the same number of definitions (one
+    // type renamed / the definitions reversed / one definition duplicated over another) take turns in
+    // ONE variable (same address), each validated before the real schema is put back and validated;
+    // also from a clone at another address, and on a fresh thread
+    let mut schemas_ok = true;
+    {
+        let mut variants: Vec<s::Document> = vec![];
+        let mut renamed = schema.clone();
+        for d in renamed.definitions.iter_mut().rev() {
+            if let s::Definition::TypeDefinition(s::TypeDefinition::Object(o)) = d {
+                o.name = format!("{}Zz", o.name);
+                break;
+            }
+        }
+        variants.push(renamed);
+        let mut reversed = schema.clone();
+        reversed.definitions.reverse();
+        variants.push(reversed);
+        let mut dup = schema.clone();
+        let n = dup.definitions.len();
+        if n >= 2 {
+            dup.definitions[n - 1] = dup.definitions[0].clone();
+        }
+        variants.push(dup);
+        let mut slot: s::Document = schema.clone();
+        for v in variants {
+            slot = v;
+            for d in docs.iter() {
+                // (a variant may have lost its query root: the documented panic of that case is not the point here)
+                let _ = std::panic::catch_unwind(std::panic::AssertUnwindSafe(|| validate(&slot, d, &plan)));
+            }
+            slot = schema.clone();
+            for (i, d) in docs.iter().enumerate() {
+                if canon_full(&validate(&slot, d, &plan)) != reference[i] {
+                    schemas_ok = false;
+                }
+            }
+        }
+        let elsewhere = Box::new(schema.clone());
+        for (i, d) in docs.iter().enumerate() {
+            if canon_full(&validate(&elsewhere, d, &plan)) != reference[i] {
+                schemas_ok = false;
+            }
+        }
+        let fresh: Vec<Vec<String>> = std::thread::scope(|sc| sc.spawn(|| docs.iter().map(|d| canon_full(&validate(schema, d, &plan_of(codes)))).collect()).join().unwrap());
+        if fresh != reference {
+            schemas_ok = false;
+        }
+    }
+    out.push(format!("SCHEMAS {}", if schemas_ok { "ok" } else { "BAD" }));
     // 16 threads, each validating all documents (rotated start), sharing &plan / &schema
     let threads_ok = std::sync::atomic::AtomicBool::new(true);
     std::thread::scope(|sc| {
